@@ -130,6 +130,19 @@ func srcToks(sc *semCase, mode string) []string {
 
 func init() {
 	registerSem(semSpec{
+		ID: "C08", Module: "GenLoops", CheckLog: false,
+		Quick:    []semRun{{Cfg: "GenLoops.quick.cfg", Workers: 8}},
+		Thorough: []semRun{{Cfg: "GenLoops.thorough.cfg", Workers: 12}},
+		Rule: "GenLoops.tla: 28 iterables (array literals of length 0..3, []interface{}, []int, [2]int, []string, range/between/until, a custom Iterator, Go maps and hash literals, five ways of being nil, six non-iterable kinds) x every loop body of up to MaxLen statements over 12 building blocks (emit value/key/text, if+break and if+continue with and without text before them, else branch, nested loop before/after, nested loop with its own break, function literal, return); expected output from the reference semantics, map loops as a set of admissible orders; for control-free bodies the model also emits the UNROLLED program and TLC checks loop = unrolled (UnrollTheorem); both are rendered by real plush. distinct_nontrivial = distinct (iterable, body) shapes with a specified outcome.",
+		Assume: []string{"return inside a loop body contributes its value and ends the iteration (pinned by the repository's Test_Render_For_Array_Return)", "break inside a loop over a map is order dependent and only checked for totality"},
+	})
+	registerSem(semSpec{
+		ID: "C16", Module: "GenFuncs", CheckLog: true,
+		Quick:    []semRun{{Cfg: "GenFuncs.quick.cfg", Workers: 8}},
+		Thorough: []semRun{{Cfg: "GenFuncs.thorough.cfg", Workers: 12}},
+		Rule: "GenFuncs.tla: functions of 0..MaxParams parameters whose bodies are if/return decision chains (conditions: parameter truthy / falsy / equal to another parameter; results: a parameter or a literal; a probe after every link and after the final return) x every argument tuple over a pool that includes caller variables named like the callee's parameters x six uses of the result (emit, condition, ==, let, argument of a Go helper, call through a parameter of a higher-order function). TLC checks ChainTheorem (value of the call = declarative first-match reading of the chain; probes after the first return reached never run; scope depth restored). Real plush must render the model's output and record the model's probe sequence. distinct_nontrivial = distinct (use, arity, chain length) shapes with specified outcome.",
+	})
+	registerSem(semSpec{
 		ID: "C07", Module: "GenIf", CheckLog: true,
 		Quick:    []semRun{{Cfg: "GenIf.quick.cfg", Workers: 4}},
 		Thorough: []semRun{{Cfg: "GenIf.thorough.cfg", Workers: 8}},
